@@ -211,5 +211,42 @@ pub proof fn lemma_arg_ref_selects(t: Tree, k: nat)
                 assert forall|k: nat| bi(start) == #[trigger] arg_ref(k) implies bi(next_index) == arg_ref(k + 1) by { lemma_pow2_unfold(k + 1); }
             }
 //@ end
+
+// R52: the operator-name table Rc<HashMap<Vec<u8>, Rc<SExp>>> -> opaque stand-in (what a name maps to is abstract); the allocator and
+// the program runner handed through to `run` are unused here (R42)
+#[verifier::external_body]
+pub struct VerifPrimMap { x: u8 }
+pub uninterp spec fn prim_of_name(m: VerifPrimMap, name: Seq<u8>) -> Option<SExp>;
+impl VerifPrimMap {
+    #[verifier::external_body]
+    pub fn get(&self, name: &Vec<u8>) -> (r: Option<&Rc<SExp>>)
+        ensures match prim_of_name(*self, name@) { Some(p) => r matches Some(x) && **x == p, None => r is None }
+    { unimplemented!() }
+}
+pub struct VerifUnused { pub x: u8 }
+// the evaluator as a whole is not under contract here
+#[verifier::external_body]
+pub fn run(allocator: &mut VerifUnused, runner: Rc<VerifUnused>, prim_map: Rc<VerifPrimMap>, sexp_: Rc<SExp>, context_: Rc<SExp>, prim_override: Option<&VerifUnused>, iter_limit: Option<usize>) -> Result<Rc<SExp>, RunFailure> { unimplemented!() }
+impl SExp {
+//@ extract fn with_loc from src/compiler/sexp.rs in impl SExp
+//@ stub
+//@ sig r
+    ensures tree_of(int_mode(), r) == tree_of(int_mode(), *self)
+//@ end
+}
+//@ note translate_head (C06 / C20: which operator the stepping evaluator runs): a NUMBER in operator position is the opcode itself and is handed on unchanged; a name is what the operator-name table maps it to (finding F24: numbers were looked up as names by their byte, so 61 = % ran as '=' and 62 = keccak256 as '>')
+//@ extract fn translate_head from src/compiler/clvm.rs
+//@ canary number_as_name @<SExp::Integer(_, _) => Ok(sexp.clone()),>@ => @<SExp::Integer(l, i) => match prim_map.get(&u8_from_number(i.clone())) { None => Ok(sexp.clone()), Some(v) => Ok(Rc::new(v.with_loc(l.clone()))) },>@
+//@ replace R42 @<allocator: &mut Allocator,>@ => @<allocator: &mut VerifUnused,>@
+//@ replace R42 @<runner: Rc<dyn TRunProgram>,>@ => @<runner: Rc<VerifUnused>,>@
+//@ replace R52 @<prim_map: Rc<HashMap<Vec<u8>, Rc<SExp>>>,>@ => @<prim_map: Rc<VerifPrimMap>,>@
+//@ replace R1 @<"cannot apply nil".to_string(),>@ => @<verif_opaque_string(),>@
+//@ replace R1 @<format!("Unexpected head form in clvm {sexp}"),>@ => @<verif_opaque_string(),>@
+//@ attr @<#[verifier::exec_allows_no_decreases_clause]>@
+//@ sig r
+    ensures
+        *sexp is Integer ==> (r matches Ok(x) && x == sexp),
+        *sexp matches SExp::Atom(_, v) ==> (prim_of_name(*prim_map, v@) matches Some(p) ==> (r matches Ok(x) && tree_of(int_mode(), *x) == tree_of(int_mode(), p))),
+//@ end
 }
 fn main() {}
